@@ -4,6 +4,7 @@ import (
 	"fmt"
 	"os"
 	"path/filepath"
+	"strconv"
 	"strings"
 
 	"git.defalsify.org/vise.git/db"
@@ -124,6 +125,12 @@ func lockstepEnv(a *app.App, o lsOpts, inputs []string, pick func(label string, 
 			if got.ExecErr == "" && top != "_catch" {
 				return "failing-instruction-accepted", fmt.Sprintf("%s: an instruction that must fail was accepted (output %q)", where, short(got.Out)), reqs
 			}
+			if rv.Flags[ref.FlagTerminate] {
+				// the failing function did set TERMINATE: whatever else the failure leaves behind, every
+				// later request is blocked - the history goes on with that expectation only
+				cacheComparable = false
+				continue
+			}
 			return "", "", reqs
 		}
 		if want.Blocked {
@@ -148,9 +155,13 @@ func lockstepEnv(a *app.App, o lsOpts, inputs []string, pick func(label string, 
 			}
 			if s.St != nil && beforeKey != "" {
 				cut := func(k string) string {
-					if o.Mode == "long-lived" {
-						return k
+					// DIRTY (a page is pending) is housekeeping of the renderer: a blocked request may drop it
+					if i := strings.Index(k, " flags="); i >= 0 && len(k) >= i+9 {
+						if b, err := strconv.ParseUint(k[i+7:i+9], 16, 8); err == nil {
+							k = k[:i+7] + fmt.Sprintf("%02x", b&^0x10) + k[i+9:]
+						}
 					}
+					// pending bytecode of a blocked session cannot run; whether it is kept is not observable
 					if i := strings.Index(k, " code="); i >= 0 {
 						j := strings.Index(k, " | ")
 						return k[:i] + k[j:]
